@@ -256,6 +256,23 @@ def load(model, d, text=None, libs=None):
     return Program.from_source(text, libraries=libs, working_dir=d)
 
 
+def build_api(model, d, libs=None, write=True):
+    """The same model built through the programming interface (Program.add_command with Python values)."""
+    import copy
+    from mpilot.program import Program
+    libs = libs or model_libs(model)
+    if write:
+        write_table(model["table"], d)
+    prog = Program(libraries=libs, working_dir=d)
+    for c in model["commands"]:
+        cls = prog.find_command_class(c["cmd"])
+        if cls is None:
+            from mpilot.exceptions import CommandDoesNotExist
+            raise CommandDoesNotExist(c["cmd"])      # what from_source does for an unknown name
+        prog.add_command(cls, c["result"], copy.deepcopy(c["args"]))
+    return prog
+
+
 # ---------------------------------------------------------------- reference interpreter
 class Poison(object):
     """Result of a node whose reference is undefined (don't-care) - and of everything downstream."""
